@@ -144,6 +144,16 @@ def gen_stream(rng, size_class, hostnames=(), allow_beyond=False):
     elif size_class == "tailbuf":
         nl = rng.randrange(0, 4)
         lens = [rng.choice(LINE_LENS_SMALL + LINE_LENS_TAILBUF) for _ in range(nl)]
+    elif size_class == "burst":
+        # a chatty stream: (optionally after a line that made the buffer grow) a burst of very many very short
+        # lines, so that ONE read hands _flush_lines tens to hundreds of complete lines at once
+        lens = [rng.choice([0, 5, 40, 63, 64, 65, 200, 998, 1000, 1500])] if rng.random() < 0.8 else []
+        k = rng.choice([20, 63, 64, 65, 127, 128, 129, 150, 200, 300, 500, 800])
+        w = rng.choice([0, 0, 1, 1, 2, 3])
+        lens += [w if rng.random() < 0.9 else rng.randrange(0, 4) for _ in range(k)]
+        if rng.random() < 0.3:
+            lens += [rng.choice(LINE_LENS_SMALL) for _ in range(rng.randrange(1, 4))]
+        tags.add("burst")
     else:  # huge
         nl = rng.randrange(1, 4)
         lens = [rng.choice(LINE_LENS_SMALL + LINE_LENS_MID) for _ in range(nl)]
@@ -362,6 +372,8 @@ def gen_case(rng, size_class, chunk_style=None, spoil_kind=None, allow_beyond=Fa
             payload = spoil(rng, payload, spoil_kind)
             tags.add(spoil_kind)
         style = chunk_style or rng.choice(["whole", "bytes", "newline", "newline", "around", "small", "random", "random"])
+        if size_class == "burst" and not chunk_style:
+            style = rng.choice(["whole", "whole", "around", "random", "random", "small"])
         if style == "bytes" and len(payload) > 600:
             style = "small" if len(payload) < 6000 else "random"
         if style == "small" and len(payload) > 20000:
@@ -787,8 +799,9 @@ def run_check(ctx, prop, props_module, level):
         plan = []
         for exe, name, share in ((exe_dbg, "assert+asan", 0.6), (exe_rel, "shipped(NDEBUG)+asan", 0.4)):
             cases = []
-            counts = [("tiny", 1600 if quick else 12000), ("small", 1200 if quick else 8000),
-                      ("mid", 400 if quick else 2500), ("tailbuf", 160 if quick else 900)]
+            counts = [("tiny", 1500 if quick else 12000), ("small", 1100 if quick else 8000),
+                      ("mid", 400 if quick else 2500), ("tailbuf", 160 if quick else 900),
+                      ("burst", 140 if quick else 1500)]
             for cls, n in counts:
                 for _ in range(int(n * share)):
                     cases.append(gen_case(rng, cls))
